@@ -173,4 +173,25 @@ PROPS["C05"] = {
     "rule": "honest opening proofs for random oracle shapes (1-4 oracles, 1-6 polys, blinding), degrees 2^1..2^7 (thorough 2^9), rate 1-4, cap 0-4, Fixed/ConstantArity/MinSize strategies, 1-5 queries (thorough 12) x 17 deviation classes with challenges fixed; ConstantArityBits schedule for all small parameters; distinct = distinct request lines",
 }
 
+def judge_c04(d):
+    return "a Fiat-Shamir challenge computed by the implementation differs from the transcript model (a statement/proof component is absorbed differently, in a different order, or not at all)"
+
+
+PROPS["C04"] = {
+    "lean_modules": ["P2.Props.C04"],
+    "audit_module": "P2.Audit.C04",
+    "harness_prop": "c04",
+    "profile": "release",
+    "judge": judge_c04,
+    "trusted_base": KERNEL_TB + [
+        "modelled, not verified: plonk/get_challenges.rs, fri/challenges.rs, FriParams::observe, iop/challenger.rs transcribed by hand (P2/Model/Plonk.lean getChallenges/plonkSchedule/friSchedule, Challenger.lean)",
+        "STARK transcripts not modelled yet (partial); Keccak configuration not modelled (partial)",
+        "cryptographic idealisation: reading 'changes all later challenges' as a random-oracle statement; the theorems state coverage/order of absorption and state dependence",
+    ],
+    "level_text": "Lean 4: the PLONK Fiat-Shamir schedule as an explicit event list with theorems that every statement component and prover message is absorbed, in order, before the challenges drawn after it (any proof shape); the challenger state machine (C13 refinement theorems); every challenge of real proofs (with/without lookups, zk, several FRI layer counts) is recomputed by the Lean model from the dumped statement+proof and must equal get_challenges; plus the property's own oracle on the implementation (alter one component => every later challenge group changes, no earlier one does)",
+    "level_note": "Trusted: Lean kernel, standard axioms, hand transcription tied by exact agreement of all challenges on honest and altered transcripts. Random-oracle reading is an idealisation; STARK schedule partial.",
+    "assumptions": ["Poseidon as a random oracle for the reading 'changes all challenges'"],
+    "rule": "proofs of generated circuit programs under generated configs x 9+ altered transcript components each; all challenges compared; distinct = distinct request lines",
+}
+
 NOT_CLAIMED = {}
